@@ -105,6 +105,8 @@ def reviewed : List (String × String × String × String) := [
   ("storage/skiplist.rs", "insert_new_node", "vec_zeroed", "new_level+1"),          -- new_level < MAX_LEVEL = 32
   ("storage/commands/streams.rs", "handle_xadd", "with_capacity", "num_fields"),    -- (parts.len() - 3) / 2
   ("storage/commands/strings.rs", "handle_mset", "with_capacity", "parts.len()/2"), -- half the received frame's element count
+  ("network/server.rs", "handle_zadd", "with_capacity", "(parts.len()-2)/2"),       -- behind `parts.len() < 4` (no underflow); bounded by the received frame
+  ("network/server.rs", "handle_zrem", "with_capacity", "parts.len()-2"),           -- behind `parts.len() < 3`; bounded by the received frame
   -- parser: capped by the bytes received (C20 reserve_bounded); windows inside the buffer (C20 consumed_bounded)
   ("protocol/parser.rs", "parse_array", "with_capacity", "len.min(data.len()"),   -- …).min(MAX_RESERVE): the inventory cuts the operand at the first `).`; C20 reserve_bounded(_by_constant)
   ("protocol/parser.rs", "parse_map", "with_capacity", "len.min(data.len()"),   -- …).min(MAX_RESERVE): the inventory cuts the operand at the first `).`; C20 reserve_bounded(_by_constant)
